@@ -30,7 +30,7 @@ RULE = ("random ADMGs (2-7 nodes; bidirected chains through conditioned nodes an
         "conditioned districts of 2-4 nodes marrying private parents of different members (seeded/C04c, C03c), sparse 7-10 node "
         "ADMGs with up to 8 conditions, disconnected graphs; name tables other than A%02d for a share of the cases (tag names: "
         "mixed lengths / case, and counterfactual-variable nodes in two worlds of one base name); whole verdict tables (all pairs x all conditioning "
-        "sets) for ADMGs on <=4 nodes and structured 5-6 node graphs (quick: sampled, thorough: every ADMG on <=3 nodes, sampled 4-5 node ones, structured up to 7 nodes); a "
+        "sets) for ADMGs on <=4 nodes and structured 5-6 node graphs (quick: sampled, thorough: every ADMG on <=3 nodes, sampled 4-5 node ones); a "
         "malformed stream (endpoint or condition not in the graph, endpoint inside the conditioning set, a == b, cyclic "
         "graphs, non-Variable arguments). A case is non-trivial when it is in the property's scope and either the "
         "conditioning set is non-empty or the true verdict changes when every bidirected edge is deleted.")
@@ -686,9 +686,9 @@ def _cases(rng: random.Random, tier: str):
         out.append(with_names(rng, {"kind": "table", "g": rand_admg(rng, 2, 4 if tier == "quick" else 5)}, 0.05, 0.05))
     # whole tables of structured graphs on 5-6 nodes (quick) / 5-7 nodes (thorough): every pair x every set sees the deep shape
     k = 0
-    while k < (24 if tier == "quick" else 300):
+    while k < (24 if tier == "quick" else 150):
         g, _, _, _, shape = structured_query(rng, only=("deep_path", "long_fork", "bidirected_chain", "married_parents"))
-        if 5 <= len(G.all_nodes(g)) <= (6 if tier == "quick" else 7):
+        if 5 <= len(G.all_nodes(g)) <= 6:
             out.append({"kind": "table", "g": g, "shape": shape.split(":")[0]})
             k += 1
     if tier == "thorough":
